@@ -18,3 +18,48 @@ Proof. exact flatten_after_close_starts_at_subpath_start. Qed.
 (* a curve as first op starts at its control point, which is emitted so that the polygon is the one filling sees *)
 Example C16_curve_first_op : forall c q l, flatten_ops [QuadTo c q] [[l; q]] None None = [LineTo c; LineTo l; LineTo q].
 Proof. reflexivity. Qed.
+
+(* ---- closed form of flatten and its cursor (PathShape.v) ---- *)
+Require Import RQ.RasterGlue RQ.PathShape.
+
+(* op by op: MoveTo / LineTo / Close are copied, a curve becomes (LineTo of its first control point when there is no
+   current point, then) one LineTo per point the flattener returned for it *)
+Theorem C16_flatten_op_by_op_partial : forall ops oracle cur start,
+  flatten_ops ops oracle cur start = concat (flat_pieces ops oracle (cur, start)).
+Proof. exact flatten_decomposition. Qed.
+Print Assumptions C16_flatten_op_by_op_partial.
+
+(* MoveTo / LineTo / Close and their order are preserved: dropping what came from curves leaves exactly the input's
+   non-curve ops, and everything that came from a curve is a LineTo *)
+Theorem C16_mlz_preserved_partial : forall ops oracle cur start,
+  map snd (flat_tagged ops oracle (cur, start)) = flatten_ops ops oracle cur start /\
+  map snd (filter (fun x => negb (fst x)) (flat_tagged ops oracle (cur, start))) = filter MiscProofs.flat_op ops /\
+  (forall x, In x (flat_tagged ops oracle (cur, start)) -> fst x = true -> exists p, snd x = LineTo p).
+Proof. exact flatten_preserves_mlz. Qed.
+Print Assumptions C16_mlz_preserved_partial.
+
+(* if the flattener ends every curve exactly at the curve's end point (checked on every output of the crate), the
+   flattened path and the original have the same current point and subpath start after every prefix - also for the
+   cursor DrawTarget::fill keeps (RasterGlue.c_op), under every transform: whatever follows starts at the same place *)
+Theorem C16_cursor_preserved_partial : forall pre post oracle,
+  oracle_ends_ok (pre ++ post) oracle ->
+  let fpre := flatten_ops pre oracle None None in
+  let k := fl_run (None, None) pre in
+  flatten_ops (pre ++ post) oracle None None = fpre ++ flatten_ops post (skipn (ncurves pre) oracle) (fst k) (snd k) /\
+  fl_run (None, None) fpre = k /\
+  (forall t r r',
+     let c := fold_left (RasterGlue.c_op t) fpre (mk_cursor None None r) in
+     let c' := fold_left (RasterGlue.c_op t) pre (mk_cursor None None r') in
+     cur c = cur c' /\ first c = first c') /\
+  curve_starts (pre ++ post) None None = curve_starts pre None None ++ curve_starts post (fst k) (snd k).
+Proof. exact flatten_curve_ends_exactly. Qed.
+Print Assumptions C16_cursor_preserved_partial.
+
+(* flattening twice changes nothing *)
+Theorem C16_flatten_idempotent : forall ops oracle cur start oracle' cur' start',
+  flatten_ops (flatten_ops ops oracle cur start) oracle' cur' start' = flatten_ops ops oracle cur start.
+Proof. exact flatten_idempotent. Qed.
+Print Assumptions C16_flatten_idempotent.
+
+(* after Close the current point is the subpath's start, in the flattened path as in the original and in fill's cursor *)
+(* further lemmas of the same file: flatten_cursor_after_close *)
